@@ -173,6 +173,33 @@ func Skip(b []byte, t int8) SkipResult {
 	return r
 }
 
+// minSize is the smallest encoding a value of type t can have.
+func minSize(t int8) int64 {
+	if fs := FixedSize(t); fs > 0 {
+		return int64(fs)
+	}
+	switch t {
+	case STRING:
+		return 4
+	case STRUCT:
+		return 1
+	case LIST, SET:
+		return 5
+	case MAP:
+		return 6
+	}
+	return 0
+}
+
+// also marks the input as truncated when c is another defect found inside a container whose declared element count
+// cannot fit into the bytes that are left anyway: such an input is wrong in two ways and either cause may be named.
+func orShort(c Cause, short bool) Cause {
+	if short && c != 0 {
+		return c | Truncated
+	}
+	return c
+}
+
 func skip(b []byte, t int8, level int, maxd *int) (int, Cause) {
 	if fs := FixedSize(t); fs > 0 {
 		if len(b) < fs {
@@ -219,10 +246,11 @@ func skip(b []byte, t int8, level int, maxd *int) (int, Cause) {
 			}
 			return 5 + int(need), 0
 		}
+		short := int64(len(b)-5) < int64(n)*minSize(et)
 		for i := int32(0); i < n; i++ {
 			m, c := skip(b[off:], et, level+1, maxd)
 			if c != 0 {
-				return 0, c
+				return 0, orShort(c, short)
 			}
 			off += m
 		}
@@ -246,15 +274,16 @@ func skip(b []byte, t int8, level int, maxd *int) (int, Cause) {
 			return 0, c
 		}
 		off := 6
+		short := int64(len(b)-6) < int64(n)*(minSize(kt)+minSize(vt))
 		for i := int32(0); i < n; i++ {
 			m, c := skip(b[off:], kt, level+1, maxd)
 			if c != 0 {
-				return 0, c
+				return 0, orShort(c, short)
 			}
 			off += m
 			m, c = skip(b[off:], vt, level+1, maxd)
 			if c != 0 {
-				return 0, c
+				return 0, orShort(c, short)
 			}
 			off += m
 			if off > len(b) {
